@@ -5,14 +5,11 @@ package chainsim
 
 import (
 	"fmt"
-	"strings"
 
 	sdk "github.com/cosmos/cosmos-sdk/types"
 	stakingtypes "github.com/cosmos/cosmos-sdk/x/staking/types"
-	testkeeper "github.com/lavanet/lava/v5/testutil/keeper"
 	pairingtypes "github.com/lavanet/lava/v5/x/pairing/types"
 	projectstypes "github.com/lavanet/lava/v5/x/projects/types"
-	spectypes "github.com/lavanet/lava/v5/x/spec/types"
 	subscriptiontypes "github.com/lavanet/lava/v5/x/subscription/types"
 	"github.com/lavanet/lava/v5/zz_verif/simrt"
 )
@@ -31,8 +28,12 @@ func (k *c03Kit) oraclesC05(tx *c03TxInfo) {
 				break
 			}
 		}
-		r.Check(tx.Res.DigestBefore == tx.Res.DigestAfter && tx.Res.DigestBefore != "", "c05-rejected-tx-changed-state", sig,
-			"relay payment %s was rejected (%v) but the state digest changed %s -> %s", tx.Kind, tx.Res.Err, tx.Res.DigestBefore, tx.Res.DigestAfter)
+		if tx.Res.DigestBefore == "" {
+			r.Probe("c05_rejected_in_ante_step") // the messages never ran
+		} else {
+			r.Check(tx.Res.DigestBefore == tx.Res.DigestAfter, "c05-rejected-tx-changed-state", sig,
+				"relay payment %s was rejected (%v) but the state digest changed %s -> %s", tx.Kind, tx.Res.Err, tx.Res.DigestBefore, tx.Res.DigestAfter)
+		}
 		for _, ri := range tx.Rels {
 			for _, why := range ri.Invalid {
 				r.Probe("c05_rejected:" + why)
@@ -421,12 +422,12 @@ func (s *Sim) opC05State() {
 			return
 		}
 		cur.Enabled = !cur.Enabled
-		cur.Name = strings.ToLower(cur.Name) // the proposal handler insists on a lowercase display name
+		cur.BlockLastUpdated = s.Height()
+		// What the spec proposal handler does for a modified spec is Spec.SetSpec with
+		// BlockLastUpdated = height. The handler itself cannot be used here: its validation refuses
+		// the repo's own mock spec (upper-case name, api interface "stub") that the simulator uses.
 		res := s.Tx("gov_spec", nil, func(ctx sdk.Context) error {
-			if err := testkeeper.SimulateSpecAddProposal(ctx, s.K.Spec, []spectypes.Spec{cur}); err != nil {
-				r.Probe("c05_spec_proposal_refused")
-				return err
-			}
+			s.K.Spec.SetSpec(ctx, cur)
 			return nil
 		})
 		r.Op("gov_spec", map[bool]string{true: "ok", false: "rejected"}[res.Err == nil])
@@ -527,6 +528,7 @@ func runC05(r *simrt.Run) {
 	s := NewSim(r, cfg)
 	k := c03NewKit(s)
 	defer delete(c03Kits, s)
+	k.checkC03 = false // C03's oracles are evaluated by C03 only
 	k.wantDig = true
 	k.postHooks = append(k.postHooks, k.oraclesC05)
 	s.RunHistory()
